@@ -7,7 +7,7 @@ C13.c graph-library edge orders only over integer positions
 """
 import ast
 
-from ..core.flow import call_name, calls_in
+from ..core.flow import call_name, calls_in, is_name
 from ..core.loader import AnalysisError, short, own_nodes, norm, canon, function_locals
 from ..core.report import where
 from ..core.setorder import SetTypes, sites_in_function
@@ -71,6 +71,14 @@ TRIAGE_PREMISES = {
     ("smt_encoding.json_with_dependencies.bounds_from_instructions",
      "list(set((L1.id for L1 in instructions if L1.instruction_subset == InstructionSubset.store)).difference(L2))"):
         [(f"{BNDS}.initialize_bound_positions_for_ub", "maximal_mem_ids")],
+}
+# (function, parameter) pairs that must treat the parameter as read-only (no item store, no mutator call, in the function or the
+# functions nested in it): the table filled by generate_lower_bound_dict holds, for every instruction, a value that depends on the
+# dependency graph alone — only because nobody but the loop over the topological order (one slot per element) writes it.
+TRIAGE_READONLY = {
+    (f"{BNDS}.toposort_instr_dependencies",
+     "list(set((L1 for L1 in dependency_graph)).difference(set((L1 for L2 in dependency_graph.values() for L1 in L2))))"):
+        [(f"{BNDS}.number_instr_needed", "number_of_instructions_to_execute")],
 }
 PER_KEY_UPDATERS = {"update_current_index"}
 # loops triaged because their body is one slot-per-element update  <table>[<loop var>] op= ...
@@ -160,6 +168,24 @@ def rule_a(ctx, out):
                     holds, why = _premise_holds(ctx, qual, param)
                     if not holds:
                         broken = (qual, param, why)
+                written = None
+                for qual, param in TRIAGE_READONLY.get(key, []):
+                    g_ = ctx.func(qual)
+                    if param not in g_.params:
+                        raise AnalysisError(f"{qual} has no parameter {param} any more (premise of a triaged set-order site)")
+                    from ..core.absint import MUTATORS
+                    for x in ast.walk(g_.node):
+                        if isinstance(x, ast.Subscript) and isinstance(x.ctx, (ast.Store, ast.Del)) and is_name(x.value, param):
+                            written = (g_, x)
+                        if isinstance(x, ast.Call) and isinstance(x.func, ast.Attribute) and is_name(x.func.value, param) and x.func.attr in MUTATORS:
+                            written = (g_, x)
+                if written:
+                    out.bad(f"set-order:{f.qual.split('.', 1)[-1]}:{written[0].name}-writes-shared-table", f"{s['consumer'][:80]} in {f.qual} yields the maximal "
+                            f"instructions in set order; that is harmless only while the table of per-instruction values is written once per instruction by the "
+                            f"loop over the topological order. {written[0].name} now writes `{short(written[1], 50)}` itself (also from its recursive calls, with "
+                            f"values relative to the instruction being visited): the entries, and the published lower bounds, depend on the visiting order",
+                            where(written[0], written[1]), rec)
+                    continue
                 if broken:
                     out.bad(f"set-order:{f.qual.split('.', 1)[-1]}:{broken[0].rsplit('.', 1)[-1]}:{broken[1]}",
                             f"{s['consumer'][:80]} in {f.qual} hands a list in set order to {broken[0]}, and {broken[2]}: the result depends on the "
